@@ -64,6 +64,8 @@ def run(ck):
     ck.run_rule(i8_exit)
     ck.run_rule(i9_position)
     ck.run_rule(i10_first_iteration)
+    from .c12 import q7_uci_query
+    ck.run_rule(q7_uci_query)   # I9: the move tokens are converted to (origin, destination, promotion) queries
 
 
 def _shape(ck, rule):
